@@ -28,6 +28,16 @@ Proof.
   apply String.eqb_eq in H1. apply items_eqb_eq in H2. subst. f_equal. auto.
 Qed.
 
+Lemma pairs_eqb_eq a : forall b, pairs_eqb a b = true -> a = b.
+Proof.
+  induction a as [|[x y] a IH]; intros [|[x' y'] b] H; simpl in H; try discriminate; auto.
+  apply andb_true_iff in H as [H12 H3]. apply andb_true_iff in H12 as [H1 H2].
+  apply String.eqb_eq in H1. apply String.eqb_eq in H2. subst. f_equal. auto.
+Qed.
+
+Lemma pairs_eqb_refl a : pairs_eqb a a = true.
+Proof. induction a as [|[x y] a IH]; simpl; auto. rewrite !String.eqb_refl, IH. auto. Qed.
+
 Lemma strs_eqb_refl a : strs_eqb a a = true.
 Proof. induction a; simpl; auto. rewrite String.eqb_refl. auto. Qed.
 
@@ -39,6 +49,8 @@ Definition regen_spec (f : regen_facts) : Prop :=
   (* inserted in exactly the classes the source names *)
   (forall m, classes_with (rf_src f) m = classes_with (rf_nml f) m) /\
   rf_dangling f = [] /\
+  (* the member-name table regeneration would apply is the shipped one, and the shipped members follow it *)
+  rf_name_table_regen f = rf_name_table_shipped f /\ rf_member_name_violations f = [] /\
   (* hence any behaviour computed from the helper statements is the same on both sides *)
   (forall (B : Type) (sem : list cls_items -> B), sem (rf_src f) = sem (rf_nml f)) /\
   (* classes <-> complex types of the bundled schema for the current version *)
@@ -59,14 +71,17 @@ Proof.
   | h : strs_eqb _ _ = true |- _ => apply strs_eqb_eq in h
   end.
   destruct (rf_dangling f) eqn:D; try discriminate.
+  destruct (rf_member_name_violations f) eqn:V; try discriminate.
+  repeat match goal with h : pairs_eqb _ _ = true |- _ => apply pairs_eqb_eq in h end.
   rewrite H. repeat split; auto.
 Qed.
 
 (* a one-sided edit is always seen: the obligation is also complete *)
 Theorem regen_complete f : regen_spec f -> regen_ok f = true.
 Proof.
-  unfold regen_ok, regen_spec. intros (_ & _ & _ & D & S & C & X & H1 & H2 & H3 & U & E).
-  specialize (S _ (fun x => x)). simpl in S. rewrite S, D, C, X, H1, H2, H3, U, E.
+  unfold regen_ok, regen_spec. intros (_ & _ & _ & D & N & V & S & C & X & H1 & H2 & H3 & U & E).
+  specialize (S _ (fun x => x)). simpl in S. rewrite S, D, N, V, C, X, H1, H2, H3, U, E.
+  rewrite pairs_eqb_refl.
   rewrite !String.eqb_refl, strs_eqb_refl.
   assert (T : forall t, tab_eqb t t = true).
   { induction t as [|[c x] t IH]; simpl; auto. rewrite String.eqb_refl, IH.
@@ -81,7 +96,7 @@ Qed.
 Example regen_example_ok :
   regen_ok {| rf_src := [("Segment", [("length", ["def length(self)"; "return 1"])])];
               rf_nml := [("Segment", [("length", ["def length(self)"; "return 1"])])];
-              rf_dangling := []; rf_binding_classes := ["Segment"]; rf_exported_classes := ["Segment"]; rf_complex_types := ["Segment"];
+              rf_dangling := []; rf_name_table_regen := [("a","b")]; rf_name_table_shipped := [("a","b")]; rf_member_name_violations := []; rf_binding_classes := ["Segment"]; rf_exported_classes := ["Segment"]; rf_complex_types := ["Segment"];
               rf_current := "v9"; rf_header_schema := "NeuroML_v9.xsd"; rf_writer_schema := "NeuroML_v9.xsd";
               rf_regen_schema := "NeuroML_v9.xsd"; rf_regen_uses_helpers := true; rf_schema_exists := true |} = true.
 Proof. vm_compute. reflexivity. Qed.
@@ -89,7 +104,7 @@ Proof. vm_compute. reflexivity. Qed.
 Example regen_example_bad :
   regen_ok {| rf_src := [("Segment", [("length", ["def length(self)"; "return 1"])])];
               rf_nml := [("Segment", [("length", ["def length(self)"; "return 2"])])];
-              rf_dangling := []; rf_binding_classes := ["Segment"]; rf_exported_classes := ["Segment"]; rf_complex_types := ["Segment"];
+              rf_dangling := []; rf_name_table_regen := [("a","b")]; rf_name_table_shipped := [("a","b")]; rf_member_name_violations := []; rf_binding_classes := ["Segment"]; rf_exported_classes := ["Segment"]; rf_complex_types := ["Segment"];
               rf_current := "v9"; rf_header_schema := "NeuroML_v9.xsd"; rf_writer_schema := "NeuroML_v9.xsd";
               rf_regen_schema := "NeuroML_v9.xsd"; rf_regen_uses_helpers := true; rf_schema_exists := true |} = false.
 Proof. vm_compute. reflexivity. Qed.
